@@ -1,3 +1,6 @@
+import json
+import os
+
 import vf
 
 SPEC = dict(
@@ -12,15 +15,32 @@ SPEC = dict(
          "index.SetTombstone, overlapping with simple shards, occasionally renamed), trash with 1-2 shards per repository, mtimes "
          "from {now-100000, now-86401, now-86400, now-86399, now-3600, now-60, now, now+3600}, 0-2 *.tmp files, an unrelated "
          "file; random assigned subset in random order (6% of the cases with one id twice); shardMerging 65%; the real cleanup() is run twice and the directory "
-         "(files, mtimes, per-shard repository metadata incl. tombstones) observed before / after / after the second run. "
+         "(files, mtimes, per-shard repository metadata incl. tombstones) observed before / after / after the second run; in 25% of "
+         "the cases the os.Rename of one or two shard files inside moveAll is made to fail during the first run (cleanup.go mapped "
+         "through translator/fsinstrument + zzfs shim), the observed failed renames are part of the case. "
          "non-trivial = >= 2 index shards, trash or compound shards present, and the first cleanup changed something.",
     trusted_base=["correspondence harness harness/overlay/cmd/zoekt-sourcegraph-indexserver/zz_verif_c32_test.go (generator, canonicalisation, Go oracle)",
                   "abstraction: shard + .meta sidecar as one unit carrying (id, name, tombstone, latest commit date) per repository; base names ordered like file names",
                   "Go map iteration order modelled as first-appearance order (result observed to be order-independent on all generated inputs)",
-                  "file-system failures (rename/remove/chtimes errors, unreadable shards) are not modelled: moveAll's failure fallback is outside the theorems"],
-    assumptions=["no file-system errors during cleanup", "the assigned list has no duplicates (restore theorem only; the model and the correspondence cover duplicates)",
+                  "rename failures inside moveAll are modelled (cleanup_f) and injected by the harness through the zzfs shim (cleanup.go is mapped "
+                  "as a copy in which ONLY moveAll's os.Rename call is rewritten to zzfs.Rename by translator/fsinstrument); failures of "
+                  "os.Remove / Chtimes / SetTombstone and unreadable shards are not modelled"],
+    assumptions=["no file-system errors during cleanup other than failing renames (the restore / trash-rule / revival theorems assume none at all)", "the assigned list has no duplicates (restore theorem only; the model and the correspondence cover duplicates)",
                  "well-formed directory (unique base names per directory, trashed shards hold one repository)"],
 )
 
 def run(ctx):
-    return vf.standard_check(ctx, SPEC)
+    # cleanup.go with moveAll's os.Rename routed through the fault-injection shim (regenerated from the tree under test each run)
+    out = os.path.join(ctx.tmp, "fsi")
+    os.makedirs(out, exist_ok=True)
+    rc, txt = vf.sh(["go", "run", os.path.join(vf.ROOT, "translator", "fsinstrument", "main.go"), "-repo", vf.REPO, "-out", out,
+                     "-fns", "Rename", "cmd/zoekt-sourcegraph-indexserver/cleanup.go"], cwd=vf.REPO, env=vf.go_env(), timeout=600)
+    if rc != 0 or "{" not in txt:
+        raise RuntimeError("fsinstrument failed: " + txt[-2000:])
+    data = json.loads(txt[txt.index("{"):])
+    sites = [s for s in data["sites"] if s.get("func") == "moveAll" and s.get("call") == "os.Rename"]
+    if len(sites) != 1 or len(data["sites"]) != 1:
+        raise RuntimeError("expected exactly one os.Rename call site, in moveAll; found: %r" % (data["sites"],))
+    spec = dict(SPEC)
+    spec["harness"] = dict(SPEC["harness"], extra_replace=data["Replace"])
+    return vf.standard_check(ctx, spec)
